@@ -18,7 +18,7 @@ import json
 import math
 from fractions import Fraction
 
-from harness.core import Ctx, VERIF, cbool, clist, cnat, cq, cz, guarded, pmap
+from harness.core import COQ, Ctx, VERIF, cbool, clist, cnat, cq, cz, guarded, pmap
 
 ID = "C17"
 ANCHORS = ["solvor/cg.py", "solvor/bp.py", "solvor/utils/pricing.py"]
@@ -495,6 +495,8 @@ def run(ctx: Ctx):
                 "initial columns a subset); both solvers; max_iter in {0,1,2,30,default}, bp max_nodes in {0,1,3,20,200,default}; non-trivial = the run "
                 "priced in >= 1 new column, or ended FEASIBLE, or (bp) explored the tree; distinct = canonical JSON of the input")
     ctx.proof_step(["C17"])
+    if (COQ / "Props" / "C17_deep.v").exists():
+        ctx.proof_step(["C17"], props_file="Props/C17_deep.v")
     ctx.notes += [
         "floats are idealised as exact rationals: the models run in Q with eps = 1e-9; status, objective, plan (ordered), iteration count and "
         "column pool are compared exactly, duals / LP value / root x within 1e-7; cases on which the model run with eps = 0, 1e-9, 1e-7 does not "
